@@ -35,6 +35,8 @@ class Report:
         self.samples = []
         self.queries = 0
         self.mod = None
+        self.seed = 0
+        self.path_no = 0
 
     def path(self, accepted):
         if accepted:
@@ -45,9 +47,14 @@ class Report:
     def witness(self, name):
         self.witnesses[name] += 1
 
+    def want_sample(self, accepted):
+        """a seed-dependent ~2% of the paths, plus the first accepted and first rejected of each shape"""
+        self.path_no += 1
+        first = (accepted and self.accepted == 1) or (not accepted and self.rejected == 1)
+        return first or ((self.path_no * 2654435761 + self.seed * 40503) % 53 == 0)
+
     def sample(self, s):
-        if len(self.samples) < 3:
-            self.samples.append(s)
+        self.samples.append(s)
 
     def violation(self, ctx, model, kind, info):
         sc = self.mod.scenario(ctx, model, kind, info)
@@ -76,6 +83,7 @@ def _worker(job):
     mod = importlib.import_module('drivers.' + modname)
     rep = Report()
     rep.mod = mod
+    rep.seed = seed
     from mirsym.interp import Stats
     ctx.stats = Stats()
     ctx.used_models = set()
@@ -167,11 +175,22 @@ def finish(prop, tier, seed, mod, results, t0, tree_hash, no_replay=False, extra
         witnesses.update(r['witnesses'])
         stats['accepted_paths'] += r['accepted']
         stats['rejected_paths'] += r['rejected']
-        for s in r['samples']:
-            if len(samples) < 5:
-                samples.append(s)
+        samples.extend(r['samples'])
         violations.extend(r['violations'])
         panics.extend(r['panics'])
+    # encoder validation: concrete instances of explored paths must behave the same on the real code
+    validated = 0
+    mismatches = []
+    if samples and not no_replay and all('expect' in x for x in samples):
+        try:
+            got = replay.run_native(samples)
+            for sc, g in zip(samples, got):
+                if replay.matches(sc['expect'], g):
+                    validated += 1
+                else:
+                    mismatches.append(dict(scenario=sc, real=g))
+        except Exception as e:
+            mismatches.append(dict(error=str(e)[:1500]))
     # dedupe by structural signature
     by_sig = collections.OrderedDict()
     for v in violations + (panics if getattr(mod, 'PANICS_ARE_VIOLATIONS', True) else []):
@@ -226,6 +245,13 @@ def finish(prop, tier, seed, mod, results, t0, tree_hash, no_replay=False, extra
         if missing:
             print('INCONCLUSIVE: vacuity witnesses not satisfiable: %s' % missing)
             rc = 2
+        if mismatches:
+            os.makedirs(os.path.join(VERIF, 'replays', prop), exist_ok=True)
+            mp = os.path.join(VERIF, 'replays', prop, 'encoder-mismatch.json')
+            with open(mp, 'w') as f:
+                json.dump(mismatches[:20], f, indent=1, sort_keys=True)
+            print('INCONCLUSIVE: encoder validation failed on %d sampled paths (real code and symbolic path disagree): %s' % (len(mismatches), mp))
+            rc = 2
     wall = time.time() - t0
     if not samples:
         samples = [dict(note='no sample recorded')]
@@ -233,8 +259,9 @@ def finish(prop, tier, seed, mod, results, t0, tree_hash, no_replay=False, extra
         property_id=prop, tier=tier, seed=seed, level='model_checking',
         coverage=dict(
             states=int(stats['paths']), transitions=int(stats['terminators']),
-            traces_validated_against_impl=len(confirmed) + len(known_hits) + (extra or {}).get('validated', 0),
-            samples=samples,
+            traces_validated_against_impl=validated + len(confirmed) + len(known_hits) + (extra or {}).get('validated', 0),
+            encoder_validation=dict(sampled_paths=len(samples), agreed=validated, disagreed=len(mismatches)),
+            samples=samples[:4],
             shapes=len(results), shapes_inconclusive=len(errs),
             accepted_paths=int(stats['accepted_paths']), rejected_paths=int(stats['rejected_paths']),
             queries=dict(sat=int(stats['sat']), unsat=int(stats['unsat']), unknown=int(stats['unknown']),
